@@ -444,6 +444,9 @@ func DecodeObject(r io.Reader) (ugo.Object, error) {
 		if err := gob.NewDecoder(r).Decode(&v); err != nil {
 			return nil, err
 		}
+		if v == nil {
+			return nil, errors.New("decode error: nil object")
+		}
 		return v, nil
 	}
 	return nil, errors.New(
